@@ -115,6 +115,29 @@ SCENARIOS = {
             "bad_byte": ({b"\x01\x02": [("E", "F", b"\x01\x00\x10\x20")], b"\x01\x03": [("E", "F", b"\x01\x00\x10\x20")]}, [], "error"),
         },
     ),
+    "repeated_exchange": dict(
+        # the same fuzzer message type is sent three times; one of its alternatives is forbidden by a constraint, so the search for
+        # each message runs out of generations and falls back on held-back candidates
+        body='<start> ::= <ex>{3}\n<ex> ::= <F:E:ping> <E:F:pong>\n<ping> ::= "p" <kind>\n<kind> ::= "a" | "b"\n<pong> ::= "o" r"[0-9]"\n'
+             'where forall <p> in <ping>: str(<p>.<kind>) == "a"\n',
+        msgs={"ping": ("F", "E", r"pa"), "pong": ("E", "F", r"o[0-9]")},
+        lang=Rep(Seq((Lit("ping;"), Lit("pong;"))), 3, 3),
+        scripts={
+            "valid": ({"pa": [("E", "F", "o1")], "pb": [("E", "F", "o2")]}, [], "any"),
+        },
+    ),
+    "challenge": dict(
+        # the fuzzer's last message depends on the RECEIVED message through a constraint that addresses the received message node itself
+        body='<start> ::= <ex>\n<ex> ::= <F:E:hello> <E:F:chal> <F:E:resp>\n<hello> ::= "h"\n<chal> ::= "c" <num>\n<resp> ::= "r" <num>\n<num> ::= r"[0-9]{2}"\n'
+             'where forall <e> in <ex>: int(<e>.<resp>.<num>) + int(str(<e>.<chal>)[1:3]) == 99\n',
+        msgs={"hello": ("F", "E", r"h"), "chal": ("E", "F", r"c[0-9]{2}"), "resp": ("F", "E", r"r[0-9]{2}")},
+        lang=Seq((Lit("hello;"), Lit("chal;"), Lit("resp;"))),
+        relation=("<resp>", "<chal>"),
+        settings=dict(population_size=10, max_generations=40),   # the search for <resp> has to go on long enough for mutation to pick a target
+        scripts={
+            "valid": ({"h": [("E", "F", "c42")]}, [], "any"),
+        },
+    ),
     "same_type_two_senders": dict(
         # the same message type may come from either of two parties at the same point: only the actual deliverer tells them apart
         body='<start> ::= <F:E:go> (<E:F:pong> | <G:F:pong>) <F:E:fin>\n<go> ::= "go"\n<pong> ::= "po" r"[12]"\n<fin> ::= "."\n',
@@ -172,7 +195,7 @@ def io_run(task):
         pp.time = ClockShim
         random.seed(seed)
         try:
-            trees = spec.fuzz(mode=FuzzingMode.IO, **SETTINGS)
+            trees = spec.fuzz(mode=FuzzingMode.IO, **dict(SETTINGS, **sc.get("settings", {})))
         except (Horizon,):
             out["horizon"] = True
         except Livelock as e:
@@ -242,6 +265,18 @@ def judge(task, ch, sc, expect, trees, out):
                 fuzz_msgs.append((snd, rcp, val))
             else:
                 remote.setdefault(snd, []).append(val)
+        if sc.get("relation"):
+            vals = {m.msg.symbol.name(): _val(m.msg) for m in pm}
+            a, b = sc["relation"]
+            if a in vals and b in vals and vals[a][1:].isdigit() and vals[b][1:].isdigit() and int(vals[a][1:]) + int(vals[b][1:]) != 99:
+                out["viol"].append(dict(base, kind="message_violates_type_or_constraint", message=a, value=vals[a], other=vals[b],
+                                        sig="message_violates_type_or_constraint:relation"))
+            for (snd, rcp, txt) in sent:
+                # what went over the wire must satisfy the relation with what the peer delivered, whatever the tree says
+                if txt.startswith("r") and delivered.get("E", "")[:3] == "c42" and txt[1:].isdigit() and int(txt[1:]) + 42 != 99:
+                    out["viol"].append(dict(base, kind="transmitted_message_violates_constraint", sent=txt, delivered=delivered.get("E"),
+                                            sig="transmitted_message_violates_constraint"))
+                    break
         if sc.get("echo"):
             vals = {m.msg.symbol.name(): _val(m.msg) for m in pm}
             if "<ok>" in vals and "<req>" in vals and vals["<ok>"][2:] != vals["<req>"][1:]:
@@ -363,7 +398,7 @@ def free_running(task):
     trees = []
     try:
         random.seed(seed)
-        trees = spec.fuzz(mode=FuzzingMode.IO, **SETTINGS)
+        trees = spec.fuzz(mode=FuzzingMode.IO, **dict(SETTINGS, **sc.get("settings", {})))
     except Exception as e:
         out["error"] = type(e).__name__ + ": " + str(e)[:120]
     finally:
